@@ -397,7 +397,7 @@ func wireCmpEnc(out *Out, c *wireCase, n *wSch, model *wJ, real *cJ, path, slot 
 		if err == nil && text != real.Text {
 			out.D("C08|lexeme-text|"+model.Kind, "model lexeme %q, real %q (same value, same class)", text, real.Text)
 		}
-	case "raw":
+	case "raw", "rawempty":
 		// Any payload: only well-formedness (already established by the strict parser)
 	default:
 		out.D("wire|harness-cmp", "model node %q at %s", model.J, path)
@@ -441,7 +441,11 @@ func wxAbsJ(n *wSch, real *cJ) wJ {
 				child = &n.Props[0].Sch
 			}
 			if n != nil && n.T == "any" && kv.K == "value" {
-				out.M = append(out.M, wJKV{kv.K, wJ{J: "raw"}})
+				if kv.V.T == "obj" && len(kv.V.M) == 0 {
+					out.M = append(out.M, wJKV{kv.K, wJ{J: "rawempty"}})
+				} else {
+					out.M = append(out.M, wJKV{kv.K, wJ{J: "raw"}})
+				}
 				continue
 			}
 			if kv.K == "!type" && kv.V.T == "str" {
